@@ -171,6 +171,22 @@ def _at(e, t, fn):
     e.s.schedule_absolute(t, lambda *_: fn())
 
 
+def drive(e):
+    """run the virtual-time scheduler to the end.  An exception that escapes from an operator into
+    the scheduler (e.g. to_set on an unhashable element: outside C04/C44) aborts start(); it is
+    recorded and the scheduler restarted, so that later subscriptions still take place."""
+    escaped = []
+    for _ in range(200):
+        try:
+            e.s.start()
+            break
+        except Exception as ex:
+            c = e.s.clock
+            escaped.append([int(c) if float(c).is_integer() else float(c), canon(ex)])
+            e.s.stop()
+    return escaped
+
+
 def subs_log(e):
     """subscription intervals per label (an argument observable built twice -- fresh operators -- has
     the same label both times: the intervals are merged, so shared and fresh worlds are comparable)"""
@@ -217,8 +233,11 @@ def run_c04(r, plan):
     else:
         sub(200, 1400, False)
         sub(200 + plan[1], 1400 + plan[1], False)
-    e.s.start()
-    return {"subs": [rec.out for rec in recs]}
+    escaped = drive(e)
+    res = {"subs": [rec.out for rec in recs]}
+    if escaped:
+        res["escaped_into_scheduler"] = escaped
+    return res
 
 
 def run_c44(r, shared, plan):
@@ -270,8 +289,11 @@ def run_c44(r, shared, plan):
                     box["d"].dispose()
             _at(e, at, cgo)
             _at(e, until, cstop)
-    e.s.start()
-    return {"subs": [[rec.which, rec.out] for rec in recs], "sources": subs_log(e)}
+    escaped = drive(e)
+    res = {"subs": [[rec.which, rec.out] for rec in recs], "sources": subs_log(e)}
+    if escaped:
+        res["escaped_into_scheduler"] = escaped
+    return res
 
 
 # --------------------------------------------------------------------------- the recipes
